@@ -427,8 +427,6 @@ class _State(object):
 
     def put(self, obj, val, order=None, gen=False, legacy=False):
         le = self.env.le
-        if val is O:
-            obj = obj  # keep what the library returned (INFINITY expected)
         e = Entry(obj, val, order, gen, legacy)
         if len(self.pool) >= POOL_CAP:
             # never evict the curve generator (slot 0)
@@ -554,10 +552,6 @@ class _State(object):
                       "%s: library %r, reference model %r" % (
                           name, got, mval(want)),
                       dict(got=got, want=mval(want)), even_scope=y0)
-        if want is O and res is not le.INFINITY and not (
-                isinstance(res, le.Point) and res.x() is None):
-            # identity must be reported as the INFINITY object by operations
-            pass
         if fresh_fn is not None:
             try:
                 fr = norm_point(env, fresh_fn())
@@ -745,19 +739,6 @@ class _State(object):
         self.check_point_result("double", res, want,
                                 lambda: e.fresh(env).double(), y0)
         self.put_result(res, want, y0)
-
-    def _res_flags(self, a, b, want):
-        """order / legacy flags of the result of a + b as the library
-        defines them (result inherits the left Jacobi operand's order)."""
-        if want is O:
-            return None, False
-        le = self.env.le
-        if isinstance(a.obj, le.PointJacobi) and a.val is not O:
-            return a.order, False
-        if isinstance(b.obj, le.PointJacobi) and b.val is not O:
-            return (b.order if a.val is O or isinstance(a.obj, le.Point)
-                    else a.order), False
-        return None, True
 
     def op_add(self, op, swap=False):
         env = self.env
